@@ -69,7 +69,7 @@ Fixpoint lookupz (l : list (string * Z)) (k : string) : option Z :=
 Record emission := {
   e_sig : list string;                   (* subroutine <name>(t, y, dy, ...) *)
   e_call : list Z;                       (* call <name>(args(14), y, dy, args(i) ...) : the i's *)
-  e_stpnt : list (Z * Qc * string);      (* args(i) = value  ! name *)
+  e_stpnt : list (Z * Qc * string);      (* args(i) = value  ! name ; value = the binary64 that the printed literal denotes *)
   e_stpnt_y : list (Z * Qc * string);    (* y(i) = value  ! name *)
   e_parnames : list (Z * string);
   e_unames : list (Z * string);
